@@ -80,7 +80,7 @@ CHECKS = [
   "technique": "exhaustive enumeration of a finite value grid and configuration space on the real code against an exact formula model"},
  {"property_id": "C18",
   "text": "Exhaustive enumeration on the real functions: every N below 2^20 (quick) / 2^23 (thorough), N in {s-3..s+3} and the midpoint to the next smooth number around "
-          "7-smooth s below 2^62, and fast_len on every signal length 0..200 of every class; each result compared with an "
+          "7-smooth s below 2^62, and fast_len on every signal length 0..200 of every class (NumPy data and Dask data in one, several and two chunks); N also as a NumPy integer scalar of every width that holds it (asked before the Python int, since the memo shares the key); each result compared with an "
           "independently generated sorted list of all 7-smooth numbers. Complete within the stated bounds, silent outside them.",
   "note": "Trusts the nested-multiplication generator of the smooth list (self-checked against trial division in setup) and Python big-int arithmetic.",
   "technique": "bounded exhaustive enumeration of inputs on the real code against a reference model (explicit-state, one state per input)"},
@@ -102,7 +102,7 @@ CHECKS += [
           "(chunked off the transformed axes; laziness and advertised shape/dtype checked): values, shape and dtype against "
           "scipy.fft.<same name>, cross-checked with numpy.fft and a long-double DFT-definition reference; unknown names -> "
           "AttributeError. STFT/ISTFT: nchan 1..4 x 3 alignments x nperseg in {1,2,3,4,5,N} x N in {12,15,16} x trailing dims: "
-          "labels, tones at known absolute frequency under the matching label, sample rate, start time, exact inversion.",
+          "labels, tones at known absolute frequency under the matching label, sample rate, start time, exact inversion, and a second inversion of the same kept STFT object.",
   "note": "scipy.fft is the statement's reference; calls on which numpy.fft disagrees with scipy.fft (irfft* over a length-1 axis) "
           "are unconstrained; budget 64 eps(result dtype) * size.",
   "technique": "bounded exhaustive enumeration of call configurations on the real code against three reference models (library, independent library, long-double definition)"},
@@ -122,7 +122,7 @@ CHECKS += [
           "count, mixed signs) x 6 comparisons x operator/ufunc/reversed/array/Quantity forms; ALL arrays of length <= 3 (4 "
           "thorough) over a 10-value subset plus all 6^4 length-4 arrays over the six hardest values, with 2x2 reshapes and every "
           "axis, for min max argmin argmax sort argsort ptp; EVERY string of a 2 900-string decimal grammar for from_string (and "
-          "arrays of strings); to_string(), precision 0..12 and format '.kf' on 8 counts x 23 fractions x both signs; round trip.",
+          "arrays of strings); to_string(), precision 0..12 and format '.kf' on 8 counts x 23 fractions x both signs; round trip. Comparison ufuncs are also called with the non-Phase operand first; arrays are sorted, updated in place (+=, -=, out=) and sorted again.",
   "note": "Trusts Fractions and a regular-expression notion of 'plain decimal'; for exact ties any consistent index/permutation is "
           "accepted; imaginary flag of exact zero and '.0f' formatting are left open.",
   "technique": "bounded exhaustive enumeration (all pairs / all short arrays / all grammar strings) on the real code against exact rational ordering and decimal models"},
@@ -140,7 +140,7 @@ CHECKS += [
   "technique": "bounded exhaustive enumeration of generated inputs and call histories on the real code against an exact rational reference model"},
  {"property_id": "C16",
   "text": "Bounded exhaustive exploration of the class contract: 6 classes x 28 shapes (rank 0..4, zero-size and wrong fixed axes, "
-          "zero-length) x 13 dtypes x NumPy/Dask constructors with validity predicted from the contract (np.can_cast safe rule); "
+          "zero-length) x 19 dtypes (incl. byte-swapped) x NumPy/Dask constructors with validity predicted from the contract (np.can_cast safe rule); "
           "metadata menus one at a time and all pairs; every setter with every menu value; every output of all 56 catalogue "
           "operations on both backends and after a stepped slice; like() with and without overrides and across classes; pickle, "
           "cloudpickle, deepcopy, compute, persist, to_dask_array, rechunk. One-element arrays are in every metadata menu; after each valid assignment like()/pickle/deepcopy/slice must carry the current attributes and derived values.",
@@ -151,7 +151,7 @@ CHECKS += [
           "int, bool, complex) x NumPy/Dask x 12 second-operand kinds x both orders; 18 operators x 4 operand kinds x both orders; "
           "out= forms incl. two-output tuples, in-place operator chains; reduce/accumulate/reduceat/outer/at/matmul refused; "
           "np.asarray/np.array with dtype and copy, and conversion / in-place write / conversion histories. Oracle: the same "
-          "ufunc on the underlying arrays. An out-of-place result must not alias an operand; in-place operators with 7 operand kinds (incl. percent and km/m Quantities) are mirrored on raw arrays; dtype=/casting=/where= keywords.",
+          "ufunc on the underlying arrays. An out-of-place result must not alias an operand; in-place operators with 7 operand kinds (incl. percent and km/m Quantities) are mirrored on raw arrays; dtype=/casting=/where= keywords; out= and in-place targets with zero time samples.",
   "note": "Trusts NumPy/Dask ufunc results on raw arrays as the reference; (superclass signal, subclass signal) dispatch order left open.",
   "technique": "exhaustive enumeration of the ufunc x operand-arrangement alphabet on the real code with a differential oracle on the raw data"},
 ]
